@@ -109,6 +109,8 @@ impl<T: MetricTrait> LeapArray<T> {
     // or reset fields one by one by an assoiciated type?
     pub fn reset_bucket(&self, idx: usize, start_stamp: u64) {
         self.array[idx].reset_start_stamp(start_stamp);
+        #[cfg(flea1lt_sentinel_rust_verif)]
+        crate::verif::sched::point("la:mid_reset");
         self.array[idx].reset_value();
     }
 
@@ -127,6 +129,8 @@ impl<T: MetricTrait> LeapArray<T> {
         */
         let bucket = self.array[idx].clone(); // nonexpect
         loop {
+            #[cfg(flea1lt_sentinel_rust_verif)]
+            crate::verif::sched::point("la:loop");
             if bucket.start_stamp() == DEFAULT_TIME {
                 /*
                      B0       B1      B2    NULL      B4
